@@ -561,23 +561,23 @@ func checkC15(w *World, r *Report) {
 				}
 				n4++
 				construct := "recorded lastModified is the loader's modification time"
-				src := timestampSource(x.Val, map[ssa.Value]bool{}, 0)
-				// … and of the very loader that delivered the source (the one stored in the same
-				// Template's loader field)
-				if src == "loader" {
-					var deliverer ssa.Value
-					instrsOf(part, func(in2 ssa.Instruction) {
-						if st2, ok := in2.(*ssa.Store); ok {
-							if fa2, ok := st2.Addr.(*ssa.FieldAddr); ok && fa2.X == fa.X {
-								if tn, f := fieldOfAddr(fa2); tn == "Template" && f == "loader" {
-									deliverer = st2.Val
-								}
+				// the loader stored in the same Template's loader field
+				var deliverer ssa.Value
+				instrsOf(part, func(in2 ssa.Instruction) {
+					if st2, ok := in2.(*ssa.Store); ok {
+						if fa2, ok := st2.Addr.(*ssa.FieldAddr); ok && fa2.X == fa.X {
+							if tn, f := fieldOfAddr(fa2); tn == "Template" && f == "loader" {
+								deliverer = st2.Val
 							}
 						}
-					})
-					if deliverer != nil {
+					}
+				})
+				classify := func(val, deliverer ssa.Value) string {
+					src := timestampSource(val, map[ssa.Value]bool{}, 0)
+					// … and of the very loader that delivered the source
+					if src == "loader" && deliverer != nil {
 						want := loaderRoots(deliverer)
-						for _, recv := range modTimeReceivers(x.Val, map[ssa.Value]bool{}, 0) {
+						for _, recv := range modTimeReceivers(val, map[ssa.Value]bool{}, 0) {
 							match := false
 							for rv := range loaderRoots(recv) {
 								if want[rv] {
@@ -589,6 +589,50 @@ func checkC15(w *World, r *Report) {
 							}
 						}
 					}
+					return src
+				}
+				src := ""
+				if p, isParam := unspill(x.Val).(*ssa.Parameter); isParam && part != load {
+					// a constructor shared with the registering functions: what matters is what the
+					// loading path hands it
+					paramIndex := func(v ssa.Value) int {
+						for i, q := range part.Params {
+							if ssa.Value(q) == unspill(v) {
+								return i
+							}
+						}
+						return -1
+					}
+					ti, li := paramIndex(p), -1
+					if deliverer != nil {
+						li = paramIndex(deliverer)
+					}
+					src = "loader"
+					nSites := 0
+					if node := w.callgraph().Nodes[part]; node != nil {
+						for _, e := range node.In {
+							if e.Site == nil || !(parts[e.Caller.Func] || e.Caller.Func == load) || e.Site.Common().StaticCallee() != part {
+								continue
+							}
+							args := e.Site.Common().Args
+							if ti < 0 || ti >= len(args) {
+								continue
+							}
+							nSites++
+							d := deliverer
+							if li >= 0 && li < len(args) {
+								d = args[li]
+							}
+							if s := classify(args[ti], d); s != "loader" {
+								src = s
+							}
+						}
+					}
+					if nSites == 0 {
+						src = "a parameter no loading path supplies"
+					}
+				} else {
+					src = classify(x.Val, deliverer)
 				}
 				if src == "loader" {
 					r.ok("R15.4", pname, construct, w.posOf(in.Pos()), "derives from GetModifiedTime of the loader that delivered the source (0 if the loader has no timestamps)", true)
